@@ -1,4 +1,4 @@
-CONSTANTS Alphabet = {10, 64, 43} MaxLen = 7 Caps = {3,5,8} GrowLimit = 64 MaxOps = 2
+CONSTANTS Alphabet = {10, 64, 43} MaxLen = 7 Caps = {3,8} GrowLimit = 64 MaxOps = 2 MaxFail = 2
 SPECIFICATION Spec
 INVARIANT Refines
 CHECK_DEADLOCK FALSE
